@@ -4,6 +4,7 @@
   (`EncLen`, `DecEnc`, `DecSound`) for every keystream and every MAC function.
 -/
 import SnowVerif.Suite
+import SnowVerif.Crypto.StreamMac
 
 namespace SnowVerif.C18
 open SnowVerif Bytes
@@ -40,24 +41,8 @@ theorem xor_xor_cancel (a s : Bytes) (h : a.length ≤ s.length) : xor (xor a s)
 
 /-! ### The generic construction -/
 
-/-- Encrypt: xor the plaintext with `len(pt)` keystream bytes, append the MAC of
-    (key, nonce, ad, ciphertext body). Same shape as `Toy.enc`, and as ChaCha20-Poly1305 /
-    AES-GCM (counter-mode keystream, one-time or GHASH MAC). -/
-def smEnc (ks : Bytes → UInt64 → Nat → Bytes) (mac : Bytes → UInt64 → Bytes → Bytes → Bytes)
-    (key : Bytes) (n : UInt64) (ad pt : Bytes) : Bytes :=
-  let ct := xor pt (ks key n pt.length)
-  ct ++ mac key n ad ct
-
-/-- Decrypt: split off the last 16 bytes, recompute the MAC over the body, compare, and only
-    then apply the keystream. Same shape as `Toy.dec`. -/
-def smDec (ks : Bytes → UInt64 → Nat → Bytes) (mac : Bytes → UInt64 → Bytes → Bytes → Bytes)
-    (key : Bytes) (n : UInt64) (ad c : Bytes) : Option Bytes :=
-  if c.length < 16 then none
-  else
-    let body := c.take (c.length - 16)
-    let t := c.drop (c.length - 16)
-    if t == mac key n ad body then some (xor body (ks key n body.length))
-    else none
+/-! `smEnc` / `smDec` are defined in `SnowVerif/Crypto/StreamMac.lean` (import-light, shared with
+    the wrappers of the real AEADs in `Crypto/Real.lean`). -/
 
 variable {ks : Bytes → UInt64 → Nat → Bytes} {mac : Bytes → UInt64 → Bytes → Bytes → Bytes}
 
